@@ -4,4 +4,5 @@ CONSTANTS
 INVARIANT CodecInverse
 INVARIANT GuaranteedRangeStorable
 INVARIANT Injective
+INVARIANT ProductKey
 CHECK_DEADLOCK FALSE
